@@ -27,32 +27,61 @@
  * node / pointers inside such an object is a byte-extract and symbolic execution of the join list did not terminate (measured).
  * Here the two object kinds the thread code allocates come from statically TYPED pools (zeroed like calloc); release marks the slot
  * free (double release asserted) so that "nothing leaked" is a ghost count instead of CBMC's leak check. */
-static struct thread_wrapper wpool[MAXT_POOL];
-static struct thread_atexit_callback cpool[MAXT_POOL * 3];
+/* every wrapper / at-exit record is its OWN top-level object: a pointer into an ARRAY of structs has a symbolic offset for CBMC and
+ * reads through it are field-insensitive (measured in C18: 37 M clauses vs 2 M for the same program) */
+static struct thread_wrapper w0, w1, w2, w3;
+static struct thread_wrapper *const wpool[4] = {&w0, &w1, &w2, &w3};
+static struct thread_atexit_callback c0, c1, c2, c3, c4, c5, c6, c7, c8, c9, c10, c11;
+static struct thread_atexit_callback *const cpool[12] = {&c0, &c1, &c2, &c3, &c4, &c5, &c6, &c7, &c8, &c9, &c10, &c11};
 static bool wlive[MAXT_POOL], clive[MAXT_POOL * 3];
 static size_t wnext, cnext;
 static struct aws_allocator s_alloc;
 struct aws_allocator *verif_allocator(void) { return &s_alloc; }
 void *aws_mem_calloc(struct aws_allocator *a, size_t num, size_t size) {
     ASSERT(a == &s_alloc && num == 1, "allocator: calloc(1, sizeof object)");
-    if (size == sizeof(struct thread_wrapper)) { ASSERT(wnext < MAXT_POOL, "harness: wrapper pool large enough"); wpool[wnext] = (struct thread_wrapper){0}; wlive[wnext] = true; return &wpool[wnext++]; }
+    if (size == sizeof(struct thread_wrapper)) { ASSERT(wnext < MAXT_POOL && wnext < 4, "harness: wrapper pool large enough"); *wpool[wnext] = (struct thread_wrapper){0}; wlive[wnext] = true; return wpool[wnext++]; }
     ASSERT(size == sizeof(struct thread_atexit_callback), "allocator: only wrappers and at-exit records are allocated by the thread code");
-    ASSERT(cnext < MAXT_POOL * 3, "harness: callback pool large enough");
-    cpool[cnext] = (struct thread_atexit_callback){0}; clive[cnext] = true;
-    return &cpool[cnext++];
+    ASSERT(cnext < MAXT_POOL * 3 && cnext < 12, "harness: callback pool large enough");
+    *cpool[cnext] = (struct thread_atexit_callback){0}; clive[cnext] = true;
+    return cpool[cnext++];
 }
 void aws_mem_release(struct aws_allocator *a, void *p) {
     ASSERT(a == &s_alloc, "allocator: release through the same allocator");
     if (!p) return;
-    for (size_t i = 0; i < MAXT_POOL; ++i) if (p == &wpool[i]) { ASSERT(wlive[i], "wrapper released exactly once"); wlive[i] = false; return; }
-    for (size_t i = 0; i < MAXT_POOL * 3; ++i) if (p == &cpool[i]) { ASSERT(clive[i], "at-exit record released exactly once"); clive[i] = false; return; }
+    for (size_t i = 0; i < MAXT_POOL; ++i) if (p == wpool[i]) { ASSERT(wlive[i], "wrapper released exactly once"); wlive[i] = false; return; }
+    for (size_t i = 0; i < MAXT_POOL * 3; ++i) if (p == cpool[i]) { ASSERT(clive[i], "at-exit record released exactly once"); clive[i] = false; return; }
     ASSERT(0, "release of a pointer that was not allocated");
 }
-void aws_string_destroy(struct aws_string *s) { ASSERT(s == NULL, "no thread names in these programs"); }
+/* thread names (NAMES=1): one statically typed aws_string-shaped object per launch attempt; destroy is asserted exactly once */
+#ifndef NAMES
+#    define NAMES 0
+#endif
+#ifndef FAILC
+#    define FAILC 0 /* 1: pthread_create may fail (solver's choice) */
+#endif
+struct name_obj { struct aws_allocator *allocator; size_t len; uint8_t bytes[4]; };
+static struct name_obj nm0, nm1, nm2, nm3, nm4, nm5, nm6, nm7;
+static struct name_obj *const nmpool[8] = {&nm0, &nm1, &nm2, &nm3, &nm4, &nm5, &nm6, &nm7};
+static bool nlive[8];
+static size_t nnext;
+struct aws_string *aws_string_new_from_cursor(struct aws_allocator *a, const struct aws_byte_cursor *c) {
+    ASSERT(a == &s_alloc && c->len > 0 && c->len < 4, "thread name copy");
+    ASSERT(nnext < 8, "harness: name pool large enough");
+    nmpool[nnext]->allocator = a; nmpool[nnext]->len = c->len; nmpool[nnext]->bytes[0] = c->ptr[0]; nmpool[nnext]->bytes[c->len] = 0;
+    nlive[nnext] = true;
+    return (struct aws_string *)nmpool[nnext++];
+}
+void aws_string_destroy(struct aws_string *s) {
+    if (!s) return;
+    for (size_t i = 0; i < 8; ++i) if ((void *)s == (void *)nmpool[i]) { ASSERT(nlive[i], "thread name copy released exactly once"); nlive[i] = false; return; }
+    ASSERT(0, "aws_string_destroy of something that is not a thread name");
+}
 /* ---------------- pending-thread table + pthread stubs ---------------- */
 static struct { void *(*fn)(void *); void *arg; bool started, finished; unsigned joined; } pend[MAXT];
 static size_t npend;
 static size_t cur_tid; /* 0 = main flow, k = pend[k-1] */
+static unsigned failed_creates;
+static size_t pend_of_user[MAXT]; /* user thread k -> 1 + index in pend[] (0 = never created) */
 static unsigned depth;
 static void run_thread(size_t i) {
     ASSERT(!pend[i].started, "a thread function is started at most once");
@@ -70,16 +99,21 @@ static void run_thread(size_t i) {
 }
 static bool mutex_held;
 static void schedule_point(void) { /* the solver may let not-yet-started threads run to completion here */
-    if (mutex_held || depth >= 2) return; /* nesting depth of thread runs bounded by 2 */
+#ifndef MAXDEPTH
+#    define MAXDEPTH 2
+#endif
+    if (mutex_held || depth >= MAXDEPTH) return; /* nesting depth of thread runs bounded by MAXDEPTH (per job) */
     for (size_t i = 0; i < MAXT; ++i)
         if (i < npend && !pend[i].started && nd_bool()) run_thread(i);
 }
 int pthread_create(pthread_t *t, const pthread_attr_t *a, void *(*fn)(void *), void *arg) {
     (void)a;
+    if (FAILC && nd_bool()) { failed_creates++; return EAGAIN; } /* resource exhaustion: nothing is created */
     ASSERT(npend < MAXT, "harness: thread table large enough");
     pend[npend].fn = fn; pend[npend].arg = arg; pend[npend].started = pend[npend].finished = false; pend[npend].joined = 0;
     npend++;
     *t = (pthread_t)npend;
+    pend_of_user[(size_t)(uintptr_t)((struct thread_wrapper *)arg)->arg - 1] = npend;
     schedule_point();
     return 0;
 }
@@ -90,7 +124,13 @@ int pthread_join(pthread_t t, void **r) {
     ASSERT((size_t)t != cur_tid, "pthread_join: a thread never joins itself (deadlock)");
     ASSERT(pend[i].joined == 0, "pthread_join: every thread is joined at most once");
     ASSERT(!mutex_held, "pthread_join: never called with the management lock held");
-    if (!pend[i].started) run_thread(i); /* a blocking join: the target runs (and finishes) before join returns */
+    if (!pend[i].started) {
+        /* a blocking join from the main flow: the target runs (and finishes) before join returns.  A THREAD only ever joins through the
+         * lazy-join list, whose documented guarantee is that its members have already run to completion; a not-yet-started target
+         * there is reported instead of being run (this also keeps run_thread out of every nested join site: 795k -> 20k symex steps) */
+        if (depth == 0) run_thread(i);
+        else ASSERT(0, "lazy join: a thread only joins threads whose function has already completed");
+    }
     ASSERT(pend[i].finished, "pthread_join: returns only after the target has finished (no join on a thread that is still on the call stack => deadlock)");
     pend[i].joined++;
     return 0;
@@ -117,7 +157,17 @@ int aws_condition_variable_wait_pred(struct aws_condition_variable *c, struct aw
     (void)c; (void)m;
     ASSERT(mutex_held, "condition wait: called with the lock held");
     mutex_held = false;
+    size_t started_before = 0, started_after = 0;
+    for (size_t i = 0; i < MAXT; ++i) if (i < npend && pend[i].started) started_before++;
     schedule_point(); /* others run while we wait */
+    for (size_t i = 0; i < MAXT; ++i) if (i < npend && pend[i].started) started_after++;
+    /* fairness: join-all spin-waits while one managed thread is still running (documented); a scheduler that never runs that thread
+     * would spin forever.  At most one wait may pass without any thread making progress; on the next one the remaining threads run. */
+    static unsigned idle_waits;
+    if (started_after == started_before && started_after < npend) {
+        if (idle_waits >= 1) { for (size_t i = 0; i < MAXT; ++i) if (i < npend && !pend[i].started) run_thread(i); }
+        else idle_waits++;
+    } else idle_waits = 0;
     if (!pred(ctx)) { /* still blocked: only legal if someone else can still make progress (otherwise: deadlock / lost wake-up) */
         bool runnable = false;
         for (size_t i = 0; i < MAXT; ++i) if (i < npend && !pend[i].started) runnable = true;
@@ -146,10 +196,22 @@ static void at_exit_cb(void *ud) {
     exit_on[k] = cur_tid;
 }
 static void user_fn(void *arg);
+static bool launched[MAXT];
+static struct aws_thread_options joinable_opt;
 static void launch(size_t k, bool managed) {
     aws_thread_init(&th[k], verif_allocator());
-    int rc = aws_thread_launch(&th[k], user_fn, (void *)(uintptr_t)(k + 1), managed ? &managed_opt : NULL);
+    size_t count_before = aws_thread_get_managed_thread_count();
+    unsigned fails_before = failed_creates;
+    int rc = aws_thread_launch(&th[k], user_fn, (void *)(uintptr_t)(k + 1), managed ? &managed_opt : (NAMES ? &joinable_opt : NULL));
+    if (failed_creates != fails_before) { /* pthread_create refused: the launch fails and leaves nothing behind */
+        ASSERT(rc == AWS_OP_ERR && aws_last_error() == AWS_ERROR_THREAD_INSUFFICIENT_RESOURCE, "launch reports the pthread_create failure");
+        ASSERT(aws_thread_get_managed_thread_count() == count_before, "a failed launch leaves the managed-thread count unchanged");
+        ASSERT(pend_of_user[k] == 0 && ran[k] == 0, "a failed launch never runs the function");
+        launched[k] = false;
+        return;
+    }
     ASSERT(rc == AWS_OP_SUCCESS, "launch succeeds");
+    launched[k] = true;
 }
 static void user_fn(void *arg) {
     size_t k = (size_t)(uintptr_t)arg - 1;
@@ -164,11 +226,13 @@ void h_threads(void) {
     aws_thread_initialize_thread_management();
     managed_opt = *aws_default_thread_options();
     managed_opt.join_strategy = AWS_TJS_MANAGED;
+    joinable_opt = *aws_default_thread_options();
+    if (NAMES) { managed_opt.name = (struct aws_byte_cursor){.len = 2, .ptr = (uint8_t *)"tm"}; joinable_opt.name = (struct aws_byte_cursor){.len = 2, .ptr = (uint8_t *)"tj"}; }
     static const char prog[] = PROG; /* per thread: 'M' managed, 'J' joinable (manual join), 'L' managed that launches the next one (which is 'm': launched by its parent) */
     size_t n = sizeof(PROG) - 1;
     for (size_t k = 0; k < MAXT; ++k) if (k < n && prog[k] != 'm') launch(k, prog[k] != 'J');
     for (size_t k = 0; k < MAXT; ++k)
-        if (k < n && prog[k] == 'J') {
+        if (k < n && prog[k] == 'J' && launched[k]) {
             ASSERT(aws_thread_join(&th[k]) == AWS_OP_SUCCESS, "join of a joinable thread succeeds");
             ASSERT(ran[k] == 1 && exit_n[k] == NEXIT, "join returns only after the function and all its at-exit callbacks have completed");
             aws_thread_clean_up(&th[k]);
@@ -176,14 +240,20 @@ void h_threads(void) {
     ASSERT(aws_thread_join_all_managed() == AWS_OP_SUCCESS, "join_all_managed succeeds");
     ASSERT(aws_thread_get_managed_thread_count() == 0, "after join-all the outstanding managed-thread count is zero");
     for (size_t k = 0; k < MAXT; ++k)
-        if (k < n) {
+        if (k < n && !launched[k]) ASSERT(ran[k] == 0 && exit_n[k] == 0, "a thread whose launch failed never runs");
+        else if (k < n) {
             ASSERT(ran[k] == 1, "every launched thread ran its function exactly once");
             ASSERT(ran_on[k] == k + 1 || ran_on[k] != 0, "the function ran on a launched thread, not on the main flow");
             ASSERT(exit_n[k] == NEXIT && exit_on[k] == ran_on[k], "every at-exit callback ran once, on that thread");
             for (size_t j = 0; j < NEXIT; ++j) ASSERT(exit_seq[k][j] == NEXIT - 1 - j, "at-exit callbacks run in reverse order of registration");
         }
     for (size_t i = 0; i < MAXT; ++i) if (i < npend) ASSERT(pend[i].finished && pend[i].joined == 1, "every thread (manual or managed) has been joined exactly once when join-all returns");
-    ASSERT(npend == n, "exactly the launched threads were created");
+    size_t n_launched = 0;
+    for (size_t k = 0; k < MAXT; ++k) if (k < n && launched[k]) n_launched++;
+    ASSERT(npend == n_launched, "exactly the launched threads were created");
+    for (size_t i = 0; i < 8; ++i) ASSERT(!nlive[i], "every thread-name copy is released (also when the launch failed)");
+    if (FAILC && n_launched < n && n_launched > 0) WITNESS("one launch failed, another succeeded");
+    if (FAILC && n_launched == 0) WITNESS("every launch failed");
     ASSERT(aws_linked_list_empty(&s_pending_join_managed_threads), "no wrapper is left on the pending-join list");
     for (size_t i = 0; i < MAXT_POOL; ++i) ASSERT(!wlive[i], "per-thread bookkeeping (wrapper) is released for every thread");
     for (size_t i = 0; i < MAXT_POOL * 3; ++i) ASSERT(!clive[i], "every at-exit record is released");
